@@ -20,7 +20,7 @@ func init() {
 		ID:    "C12",
 		Level: "other",
 		Explanation: "Decided (necessary conditions): (R12.1) module identity covers every compile input – at each Engine.CompileModule call site the listener and close-on-context-done arguments are the very values given to AssignModuleID, every AssignModuleID parameter flows into the hash, and listener presence is hashed per function inside the loop over the listeners; " +
-			"(R12.2) the compile paths of both engines read no module field that depends on a non-semantic option and is not part of the identity (Memory.Cap, CustomSections; DWARFLines only to decide whether a source map is recorded); " +
+			"(R12.2) the compile paths of both engines read no module field that depends on a non-semantic option and is not part of the identity (Memory.Cap, CustomSections); DWARFLines, which decides whether a source map is recorded, is read only because its presence is hashed into the identity (genuine defect found and fixed: it was not); " +
 			"(R12.3) a module restored from the cache is fully re-bound: every compiledModule field assigned on the fresh-compile path is assigned on the cache-hit path or by deserialisation; (R12.4) the memory sizer's limits do not depend on the capacity flag; " +
 			"(R12.6) with a custom memory allocator every change of the buffer goes through the allocator (no buffer change outside the allocator branch unless guarded by expBuffer == nil). (R12.8) in the compiler's host-call arms, results written by the host function are never masked by the parameter types – the listener variants included, so attaching a listener does not change the values the guest receives; (R12.7) the interpreter indexes the source-offset table of a (possibly cache-shared) compiled function only under a length test of that same table, so a runtime with debug info can use an entry compiled without. NOT decided: equality of traces across the configuration lattice.",
 		Rules: []core.Rule{
@@ -34,6 +34,7 @@ func init() {
 		},
 		Run: runC12,
 		Controls: []core.Control{
+			{Name: "identity-ignores-debug-info", File: "internal/wasm/module.go", Old: "\tm.ID[0] = boolToByte(m.DWARFLines != nil)\n\th.Write(m.ID[:1])\n", New: "", Rule: "R12.2", Substr: "DWARFLines"},
 			{Name: "listener-arm-masks-host-results", File: "internal/engine/wazevo/call_engine.go", Old: "\t\t\t\tf.Call(ctx, callerModule, s)\n\t\t\t}()\n\t\t\t// Call Listener.After.\n\t\t\tlistener.After(ctx, callerModule, def, s[:len(def.ResultTypes())])", New: "\t\t\t\tf.Call(ctx, callerModule, s)\n\t\t\t}()\n\t\t\t// Call Listener.After.\n\t\t\tclearUpper32Bits(s, def.ParamTypes())\n\t\t\tlistener.After(ctx, callerModule, def, s[:len(def.ResultTypes())])", Rule: "R12.8", Substr: "GoModuleFunctionWithListener"},
 			{Name: "offset-table-guarded-by-instance-flag", File: "internal/engine/interpreter/interpreter.go", Old: "\t\tif parent := frame.f.parent; parent.body != nil && len(parent.offsetsInWasmBinary) > 0 {\n\t\t\tsources = parent.source.DWARFLines.Line(parent.offsetsInWasmBinary[frame.pc])", New: "\t\tif dw := f.moduleInstance.Source.DWARFLines; dw != nil && f.parent.body != nil {\n\t\t\tsources = dw.Line(f.parent.offsetsInWasmBinary[frame.pc])", Rule: "R12.7", Substr: "source-offset"},
 			{Name: "id-without-termination-flag", File: "runtime.go", Old: "internal.AssignModuleID(binary, listeners, r.ensureTermination)", New: "internal.AssignModuleID(binary, listeners, false)", Rule: "R12.1", Substr: "call-site"},
@@ -167,6 +168,48 @@ func runC12(c *core.Ctx) {
 		sort.Strings(sites)
 		c.Check(len(sites) == 0, "R12.2", cf.owner.Obj().Name()+"."+cf.name+" not read on compile paths", 0, "no access in the engines' compile packages",
 			cf.owner.Obj().Name()+"."+cf.name+" ("+cf.why+") is read while compiling: "+strings.Join(sites, "; ")+" — compiled code would differ between runtimes that share a cache key")
+	}
+	// Module.DWARFLines depends on WithDebugInfoEnabled and IS read while compiling (it decides whether the source map is
+	// recorded, which the cached entry and the error messages contain): that is only sound if its presence is part of the
+	// identity. (An earlier version of this rule exempted the read as harmless – that hid a genuine defect.)
+	{
+		reads := 0
+		for _, fn := range moduleFns(c, compilePkgs...) {
+			top := fn
+			for top.Parent() != nil {
+				top = top.Parent()
+			}
+			if !strings.Contains(strings.ToLower(top.Name()), "compile") {
+				continue
+			}
+			for _, b := range fn.Blocks {
+				for _, in := range b.Instrs {
+					if x, ok := in.(*ssa.FieldAddr); ok && core.NamedOf(x.X.Type()) == modNamed {
+						if st, _ := derefStructT(x.X.Type()).Underlying().(*types.Struct); st != nil && st.Field(x.Field).Name() == "DWARFLines" {
+							reads++
+						}
+					}
+				}
+			}
+		}
+		inIdentity := false
+		for _, fn := range moduleFns(c, "internal/wasm") {
+			if fn.Name() != "AssignModuleID" {
+				continue
+			}
+			for _, b := range fn.Blocks {
+				for _, in := range b.Instrs {
+					if x, ok := in.(*ssa.FieldAddr); ok && core.NamedOf(x.X.Type()) == modNamed {
+						if st, _ := derefStructT(x.X.Type()).Underlying().(*types.Struct); st != nil && st.Field(x.Field).Name() == "DWARFLines" {
+							inIdentity = true
+						}
+					}
+				}
+			}
+		}
+		c.Check(reads == 0 || inIdentity, "R12.2", "Module.DWARFLines is read while compiling only if its presence is part of the identity", 0,
+			fmt.Sprintf("%d reads in compile functions; AssignModuleID consults DWARFLines", reads),
+			fmt.Sprintf("Module.DWARFLines (set or not by WithDebugInfoEnabled) is read in %d places while compiling – it decides whether the source map is recorded – but AssignModuleID does not consult it: runtimes that differ in that option share cache entries and in-memory compiled modules, and the one with debug info loses the source lines of its stack traces", reads))
 	}
 	// positive self-test of the matcher: Memory.Cap is read somewhere in internal/wasm
 	{
